@@ -953,12 +953,12 @@ func main() {
 		RacePkgs:    []string{"p2p"},
 		MaxRestarts: 40,
 	}, func(c *mon.Ctx) {
-		c.Cases("mix", c.N(40, 480), func(k *mon.Case) { runScenario(k, genMix(k)) })
-		c.Cases("dup", c.N(16, 200), func(k *mon.Case) { runScenario(k, genDup(k)) })
-		c.Cases("cancel-race", c.N(16, 200), func(k *mon.Case) { runScenario(k, genCancelRace(k)) })
-		c.Cases("late", c.N(16, 120), func(k *mon.Case) { runScenario(k, genLate(k)) })
-		c.Cases("combo", c.N(16, 300), func(k *mon.Case) { runScenario(k, genCombo(k)) })
-		c.Cases("early", c.N(16, 160), func(k *mon.Case) { runScenario(k, genEarly(k)) })
-		c.Cases("timeout-race", c.N(16, 160), func(k *mon.Case) { runScenario(k, genTimeoutRace(k)) })
+		c.Cases("mix", c.N(40, 960), func(k *mon.Case) { runScenario(k, genMix(k)) })
+		c.Cases("dup", c.N(16, 400), func(k *mon.Case) { runScenario(k, genDup(k)) })
+		c.Cases("cancel-race", c.N(16, 400), func(k *mon.Case) { runScenario(k, genCancelRace(k)) })
+		c.Cases("late", c.N(16, 240), func(k *mon.Case) { runScenario(k, genLate(k)) })
+		c.Cases("combo", c.N(16, 600), func(k *mon.Case) { runScenario(k, genCombo(k)) })
+		c.Cases("early", c.N(16, 320), func(k *mon.Case) { runScenario(k, genEarly(k)) })
+		c.Cases("timeout-race", c.N(16, 320), func(k *mon.Case) { runScenario(k, genTimeoutRace(k)) })
 	})
 }
